@@ -29,6 +29,7 @@ import (
 	"path/filepath"
 	"sort"
 	"strings"
+	"sync"
 
 	"github.com/streamingfast/dmetering"
 	"github.com/streamingfast/dstore"
@@ -48,8 +49,17 @@ var out *common.Out
 var workDir string
 var ctx context.Context
 var failCount = map[string]int{}
+var outMu sync.Mutex
+
+func count(k string) {
+	outMu.Lock()
+	defer outMu.Unlock()
+	out.Count(k)
+}
 
 func fail(class, desc, line string) {
+	outMu.Lock()
+	defer outMu.Unlock()
 	failCount[class]++
 	if failCount[class] <= 3 {
 		out.Fail(class, desc, line)
@@ -281,9 +291,56 @@ func (s contractStore) Walk(ctx context.Context, prefix string, f func(string) e
 
 func newEnv(init uint64) *env { return newEnvMode(init, false) }
 
+// faultyStore: a dstore whose first len(pattern) WriteObject calls fail transiently, the way an object-storage upload
+// does: '0' before anything was read from the payload, 'h' after half of it was read, 'a' after all of it was read
+// (commit/close error), 'g' after half of it was read AND with that half left under the object's name (a store
+// without atomic writes). Later calls go to the real store. saveStore's retry loop (derr.RetryContext, real
+// back-off sleeps of 1 s, 2 s, …) is what turns these into a successful Save.
+type faultyStore struct {
+	dstore.Store
+	mu      *sync.Mutex
+	pattern string
+	calls   *int
+}
+
+func (s faultyStore) SubStore(p string) (dstore.Store, error) {
+	in, err := s.Store.SubStore(p)
+	if err != nil {
+		return nil, err
+	}
+	return faultyStore{in, s.mu, s.pattern, s.calls}, nil
+}
+
+func (s faultyStore) WriteObject(ctx context.Context, name string, r io.Reader) error {
+	s.mu.Lock()
+	i := *s.calls
+	*s.calls++
+	s.mu.Unlock()
+	if i >= len(s.pattern) {
+		return s.Store.WriteObject(ctx, name, r)
+	}
+	if s.pattern[i] == '0' {
+		return fmt.Errorf("injected transient write failure (attempt %d, before reading)", i+1)
+	}
+	all, _ := io.ReadAll(io.LimitReader(r, 1<<30))
+	switch s.pattern[i] {
+	case 'h', 'g':
+		// only half is considered consumed: seek back when the reader allows it (bytes.Reader does)
+		if sk, ok := r.(io.Seeker); ok {
+			sk.Seek(int64(len(all)/2)-int64(len(all)), io.SeekCurrent)
+		}
+		if s.pattern[i] == 'g' {
+			s.Store.WriteObject(ctx, name, bytes.NewReader(all[:len(all)/2]))
+		}
+	}
+	return fmt.Errorf("injected transient write failure (attempt %d, kind %c)", i+1, s.pattern[i])
+}
+
 func newEnvMode(init uint64, contract bool) *env {
+	outMu.Lock()
 	seq++
 	dir := filepath.Join(workDir, fmt.Sprintf("s%d", seq))
+	outMu.Unlock()
 	base, err := dstore.NewStore("file://"+dir, "zst", "zstd", true)
 	if err != nil {
 		panic(err)
@@ -352,12 +409,23 @@ func settable(ps []kvPair) bool {
 	return true
 }
 
-func implRT(line string, partial bool, init, end uint64, ps []kvPair, dp []string, dup bool) string {
+func implRT(line string, partial bool, init, end uint64, ps []kvPair, dp []string, dup bool, faults string) string {
 	if dup {
 		return "dup-keys"
 	}
 	e := newEnv(init)
 	defer e.close()
+	if faults != "" {
+		// the Config's object store fails transiently on the first writes (armed after the store has been filled)
+		calls := 0 // the only write through the Config's store is Save's
+		fst := faultyStore{e.base, &sync.Mutex{}, faults, &calls}
+		cfg, err := store.NewConfig("mod", init, "hash", pbsubstreams.Module_KindStore_UPDATE_POLICY_SET, "bytes", fst)
+		if err != nil {
+			panic(err)
+		}
+		e.cfg = cfg
+		defer func() { count(fmt.Sprintf("rt:write-faults:%s", faults)) }()
+	}
 	logger := zap.NewNop()
 	var sum uint64
 	for _, p := range ps {
@@ -382,7 +450,7 @@ func implRT(line string, partial bool, init, end uint64, ps []kvPair, dp []strin
 	}
 	// content of the store to be saved
 	if settable(ps) {
-		out.Count("rt:filled-by:SetBytes+Flush")
+		count("rt:filled-by:SetBytes+Flush")
 		for i, p := range ps {
 			a.SetBytes(uint64(i+1), p.k, p.v)
 		}
@@ -390,7 +458,7 @@ func implRT(line string, partial bool, init, end uint64, ps []kvPair, dp []strin
 			return "err:flush:" + strings.ReplaceAll(err.Error(), " ", "_")
 		}
 	} else {
-		out.Count("rt:filled-by:Load(empty or reserved key)")
+		count("rt:filled-by:Load(empty or reserved key)")
 		m := map[string][]byte{}
 		for _, p := range ps {
 			m[p.k] = p.v
@@ -628,7 +696,11 @@ func runLine(line string) (string, bool) {
 		return a, len(a) > 3
 	case "RT":
 		ps, dup := parseKV(w[4])
-		return implRT(line, w[1] == "part", common.Atou(w[2]), common.Atou(w[3]), ps, parseList(w[5]), dup), len(ps) > 0
+		faults := ""
+		if len(w) > 6 { // f:<pattern>
+			faults = strings.TrimPrefix(w[6], "f:")
+		}
+		return implRT(line, w[1] == "part", common.Atou(w[2]), common.Atou(w[3]), ps, parseList(w[5]), dup, faults), len(ps) > 0
 	case "LOAD":
 		a := implLoad(w[1] == "part", common.Unhex(w[2]))
 		return a, strings.HasPrefix(a, "ok") && !strings.Contains(a, "kv=/")
@@ -958,6 +1030,51 @@ func main() {
 		for _, b := range belows {
 			emit(fmt.Sprintf("LIST contract %d %s", b, arg))
 			emit(fmt.Sprintf("LIST local %d %s", b, arg))
+		}
+	}
+
+	// ---- save / load round trips under transient write failures (saveStore's retry loop, real back-off sleeps):
+	// computed concurrently, emitted in order
+	{
+		pats := []string{"a", "h", "g", "0", "ah", "ga", "hh", "0a"}
+		if th {
+			pats = append(pats, "aa", "gg", "h0", "a0h", "gha", "aaa")
+		}
+		var lines []string
+		for i, pat := range pats {
+			for _, partial := range []bool{false, true} {
+				n := []int{1, 3, 40}[(i+map[bool]int{false: 0, true: 1}[partial])%3]
+				np := 0
+				kind := "full"
+				if partial {
+					np, kind = 2, "part"
+				}
+				ps, dp := genStore(rng, n, rng.Bool(), false, np)
+				lines = append(lines, fmt.Sprintf("RT %s %d %d %s %s f:%s", kind, 10*uint64(i), 10*uint64(i)+10, encKV(ps), encList(dp), pat))
+			}
+		}
+		type res struct {
+			ans string
+			nt  bool
+		}
+		results := make([]res, len(lines))
+		var wg sync.WaitGroup
+		for i, l := range lines {
+			wg.Add(1)
+			go func(i int, l string) {
+				defer wg.Done()
+				a, _ := common.Recover(func() string {
+					x, n := runLine(l)
+					results[i].nt = n
+					return x
+				})
+				results[i].ans = a
+			}(i, l)
+		}
+		wg.Wait()
+		for i, l := range lines {
+			out.Case(l, results[i].ans, results[i].nt)
+			out.Count("op:RT-with-write-faults")
 		}
 	}
 
